@@ -1,14 +1,14 @@
 import Driver.Util
 import CloakModel.Model.ServerConfig
 
-/-! driver ops `cfg.*` — the server's configuration: `parseRedirAddr`, the address `goWeb` dials, the bypass table,
+/-! driver ops `scfg.*` — the server's configuration: `parseRedirAddr`, the address `goWeb` dials, the bypass table,
 `parseProxyBook`, `InitState` (C09 target; links to C07/C06). Strings travel as hex of their bytes; the resolvers are
 oracle tables filled by the harness with Go's own `net.Resolve*Addr` (a host the table lacks prints `oracle-miss`). -/
 namespace Driver.D09t
 
 abbrev St := Unit
 def init : St := ()
-def pfx : String := "cfg."
+def pfx : String := "scfg."
 
 open SCfg
 
@@ -68,14 +68,14 @@ def bytesList (s : String) : Option (List Bytes) := if s == "-" then some [] els
 
 def step (st : St) (cmd : String) (m : KV) : Option (St × String) :=
   match cmd with
-  | "cfg.redir" => do
+  | "scfg.redir" => do
     let s ← (get m "s").bind unhexStr
     let t ← (get m "res").bind table
     match parseRedirAddr (resolver t) s with
     | .panic => pure (st, "panic")
     | .err => pure (st, "err")
     | .ok h p => if h == missMark then pure (st, "oracle-miss") else pure (st, s!"ok host={hexStr h} port={hexStr p}")
-  | "cfg.dial" => do
+  | "scfg.dial" => do
     let s ← (get m "s").bind unhexStr
     let t ← (get m "res").bind table
     let lp ← (get m "lport").bind unhexStr
@@ -83,19 +83,19 @@ def step (st : St) (cmd : String) (m : KV) : Option (St × String) :=
     | .panic => pure (st, "panic")
     | .err => pure (st, "err")
     | .ok h p => if h == missMark then pure (st, "oracle-miss") else pure (st, s!"dial {Gen.ServerCfg.goWebDialNetwork} {hexStr (dialAddr h p lp)}")
-  | "cfg.bypass" => do
+  | "scfg.bypass" => do
     let tab ← (get m "tab").bind bytesList
     let admin ← (get m "admin").bind unhexBytes
     let uid ← (get m "uid").bind unhexBytes
     pure (st, b01 (isBypass (bypassTable tab admin) uid))
-  | "cfg.book" => do
+  | "scfg.book" => do
     let es ← (get m "ents").bind entsOf
     let t ← (get m "res").bind table
     match parseProxyBook (bookResolverOf t) es [] with
     | .panic => pure (st, "panic")
     | .err => pure (st, "err")
     | .ok b => if hasMiss b then pure (st, "oracle-miss") else pure (st, "ok " ++ showBook b)
-  | "cfg.init" => do
+  | "scfg.init" => do
     let cnc ← getBool m "cnc"
     let admin ← (get m "admin").bind unhexBytes
     let dbempty ← getBool m "dbempty"
